@@ -241,6 +241,15 @@ class WebSocket(object):
             closing.
 
         """
+        if code is not None:
+            if isinstance(code, bool) or not isinstance(code, six.integer_types):
+                raise TypeError('code argument must be an int (or None)')
+            if not 0 <= code <= 0xffff:
+                raise ValueError('code should be in the range 0..65535')
+        if not isinstance(reason, (bytes, six.text_type)):
+            raise TypeError('reason argument must be str or bytes')
+        if len(Frame.build_close_payload(code, reason)) > 125:
+            raise ValueError('close code + reason should be <= 125 bytes')
         if self.is_closed:
             log.debug('%r already closed', self)
         else:
